@@ -20,6 +20,12 @@ def build_cases(ctx):
     for s in pf.short_strings(pf.ALPHA6, maxlen):
         for cfg in pf.CFGS:
             add(cfg, s, "exhaustive")
+    from .. import gen as _gen
+    for cfg in pf.CFGS:
+        for lit in _gen.literal_matrix(cfg):
+            ctxs = _gen.literal_contexts(lit)
+            for t in (ctxs if ctx.thorough() else ctxs[:1] + [ctxs[1 + (hash(lit) % (len(ctxs) - 1))]]):
+                add(cfg, t, "literal-matrix")
     nfrag = 20000 if ctx.thorough() else 2500
     for s in pf.frag_strings(rng, nfrag):
         for cfg in pf.CFGS:
